@@ -95,7 +95,7 @@ Proof.
   unfold in_flight in *.
   simpl in Hok, Hacc, Hcb, Hu, Hf, H1, Hfin, Hdn, Hlen. subst ok acc cb fn dn.
   unfold step, step_ord in Hs.
-  Time destruct l as [o|tt]; [destruct o|destruct tt]; destruct p; simpl in Hs;
+  destruct l as [o|tt]; [destruct o|destruct tt]; destruct p; simpl in Hs;
     try discriminate Hs;
     break_ifs Hs; try discriminate Hs; inversion Hs; subst; clear Hs; fin;
     unfold Inv, in_flight; simpl in *;
@@ -104,17 +104,20 @@ Proof.
      try (rewrite ?N.eqb_refl; reflexivity);
      try (rewrite app_length; simpl; rewrite Nat.add_1_r; assumption);
      try (intros HH; first [ discriminate HH | idtac ])).
-  Time all: try (simpl in *; lia).
-  Time all: try solve [ subst; simpl in *; auto ].
-  Time all: try solve [ simpl in *; intuition (try discriminate; try congruence; auto) ].
-  Time all: try solve [ destruct uns; destruct unsf; simpl in *; intuition (try discriminate; try congruence; auto) ].
-  Time all: try solve [ simpl in *; intuition (try discriminate; try congruence; try lia) ].
-  Time all: try solve [ destruct uns; destruct unsf; simpl in *;
+  all: try (simpl in *; lia).
+  all: try solve [ subst; simpl in *; auto ].
+  all: try solve [ simpl in *; intuition (try discriminate; try congruence; auto) ].
+  all: try solve [ destruct uns; destruct unsf; simpl in *; intuition (try discriminate; try congruence; auto) ].
+  all: try solve [ simpl in *; intuition (try discriminate; try congruence; try lia) ].
+  all: try solve [ destruct uns; destruct unsf; simpl in *;
                    intuition (try discriminate; try congruence; try lia) ].
-  Time all: try solve [ destruct uns; destruct unsf; simpl in *;
+  all: try solve [ destruct uns; destruct unsf; simpl in *;
                    try match goal with b : bool |- _ => destruct b end; simpl in *;
                    intuition (try discriminate; try congruence; try lia) ].
-  Time all: try solve [ repeat match goal with b : bool |- _ => destruct b end;
+  all: try solve [ destruct unsf; destruct f; simpl in *;
+                   try match goal with b : bool |- _ => destruct b end; simpl in *;
+                   tauto ].
+  all: try solve [ repeat match goal with b : bool |- _ => destruct b end;
                    try match goal with q : list N |- _ => destruct q end;
                    try match goal with r : option N |- _ => destruct r end;
                    try match goal with r : option bool |- _ => destruct r end;
